@@ -36,6 +36,7 @@ theorem next_eq (s : RelativeStrengthIndex F) (x : F) :
                    (ExponentialMovingAverage.step s.down_ema_indicator (loss s x)).current) := by
   obtain ⟨p, u, d, pv, n⟩ := s
   unfold next gain loss rsiVal
+  try simp only [gen_helper]
   cases n
   · cases hlt : Scalar.lt pv x <;> simp [ExponentialMovingAverage.next_eq, hlt] <;> split <;> rfl
   · simp [ExponentialMovingAverage.next_eq]; split <;> rfl
@@ -74,6 +75,7 @@ theorem rsiVal_nonzero (up down : F) (h : Scalar.beq (Scalar.add up down) (Scala
 
 theorem nextBar_eq (s : RelativeStrengthIndex F) (b : Bar F) : s.nextBar b = s.next b.close := by
   unfold nextBar
+  try simp only [gen_helper]
   cases h : s.next b.close <;> simp [h]
 
 private theorem step_wf (e : ExponentialMovingAverage F) (x : F) (h : ExponentialMovingAverage.WF e) :
